@@ -1,6 +1,7 @@
 use crate::framework::{Monitor, Tier};
 
 pub mod c06;
+pub mod c07;
 pub mod c08;
 pub mod c09;
 pub mod c10;
@@ -20,6 +21,7 @@ pub fn by_id(id: &str) -> Option<Box<dyn Monitor>> {
         "C02" => Box::new(safety_uni::SafetyUni { id: "C02", policy: Policy::EDF }),
         "C03" => Box::new(safety_uni::SafetyUni { id: "C03", policy: Policy::FIFO }),
         "C06" => Box::new(c06::C06),
+        "C07" => Box::new(c07::C07),
         "C08" => Box::new(c08::C08),
         "C09" => Box::new(c09::C09),
         "C10" => Box::new(c10::C10),
